@@ -263,11 +263,12 @@ class Ctx:
             "wall_s": round(time.time() - self.t0, 2),
             "violations": violations,
         }
-        os.makedirs(EVID, exist_ok=True)
-        tmp = os.path.join(EVID, "%s.json.tmp" % self.pid)
+        evid = EVID if os.path.realpath(REPO) == "/repo" else os.path.join(WORK, "evidence_other_repo")
+        os.makedirs(evid, exist_ok=True)
+        tmp = os.path.join(evid, "%s.json.tmp" % self.pid)
         with open(tmp, "w") as f:
             json.dump(ev, f, indent=1, default=str)
-        os.replace(tmp, os.path.join(EVID, "%s.json" % self.pid))
+        os.replace(tmp, os.path.join(evid, "%s.json" % self.pid))
 
     def write_replay(self, obj):
         d = os.path.join(ROOT, "replays")
